@@ -38,8 +38,15 @@ SigF21(pre, cx1, ev, res, post, cx2, pred) ==
      /\ bad # {}
      /\ \A r \in bad : P!Designated(pre, cx1, m, r) = 0 /\ IsPrefixS(old, P!TRefText(pre, r))
 
+\* F22: remove_from_file() called directly on the root element of a model takes the root out of a file that stays listed
+SigF22(pre, cx1, ev, res, post, cx2, pred) ==
+  /\ pred \in {"EveryElementWritten", "FileTextExact", "MembershipWithinModel"}
+  /\ ev.op = "RemoveFromFile" /\ res.t = "ok"
+  /\ \E m \in 1..Len(pre.models) : pre.models[m].root = ev.p
+
 KFMatch(pre, cx1, ev, res, post, cx2, pred) ==
-  {id \in {"F7", "F21"} :
+  {id \in {"F7", "F21", "F22"} :
      CASE id = "F7" -> SigF7(pre, cx1, ev, res, post, cx2, pred)
-       [] id = "F21" -> SigF21(pre, cx1, ev, res, post, cx2, pred)}
+       [] id = "F21" -> SigF21(pre, cx1, ev, res, post, cx2, pred)
+       [] id = "F22" -> SigF22(pre, cx1, ev, res, post, cx2, pred)}
 =============================================================================
